@@ -31,7 +31,7 @@ PROPS = {
     claim="Proof that the source multi-index produced by transpose/moveaxis/swapaxes/tile/repeat(non-repeated axes)/roll indexers lies inside the source shape for every in-shape destination index; that pad maps a padded coordinate to a source index inside the source shape exactly when it is not in the padding (index level, every axis and zone) and that view::pad then reads that source element, or the pad value without touching the source (ranks 1..3); and that static_vector never holds more than its capacity (inductive invariant over every mutator); buffer-position bounds for run-time shapes (non-linear) and slice-based views are not decided. (c05_slice, counted here as well) every position a slice view reads is the position Python's slice.indices designates - inside the axis by construction - for every (start, stop, step) over the enumerated small extents.",
     note=E1_NOTE,
     technique=E1_TECH,
-    e1=[dict(tu="c05_slice.cpp", flags=["-DC05_N=3"], count_as="C05"), dict(tu="c05_slice.cpp", flags=["-DC05_N=2", "-DC05_FIRST=8", "-DC05_LAST=21"], count_as="C05"), dict(tu="c03_rearrange.cpp"), dict(tu="c03b_dynamic.cpp"), dict(tu="c04_select.cpp"), dict(tu="c19_utl.cpp"), dict(tu="c02_capacity.cpp"), dict(tu="c03c_reshape.cpp"), dict(tu="c06b_broadcast_to.cpp"), dict(tu="c15b_pad_matmul.cpp"), dict(tu="c02c_padview.cpp"), dict(tu="c04c_take.cpp"), dict(tu="c04f_diagonal.cpp"), dict(tu="c12_enum.cpp"), dict(tu="c16c_capacity.cpp"), dict(tu="c02d_capacity2.cpp")],
+    e1=[dict(tu="c05c_lengths.cpp"), dict(tu="c05_slice.cpp", flags=["-DC05_N=3"], count_as="C05"), dict(tu="c05_slice.cpp", flags=["-DC05_N=2", "-DC05_FIRST=8", "-DC05_LAST=21"], count_as="C05"), dict(tu="c03_rearrange.cpp"), dict(tu="c03b_dynamic.cpp"), dict(tu="c04_select.cpp"), dict(tu="c19_utl.cpp"), dict(tu="c02_capacity.cpp"), dict(tu="c03c_reshape.cpp"), dict(tu="c06b_broadcast_to.cpp"), dict(tu="c15b_pad_matmul.cpp"), dict(tu="c02c_padview.cpp"), dict(tu="c04c_take.cpp"), dict(tu="c04f_diagonal.cpp"), dict(tu="c12_enum.cpp"), dict(tu="c16c_capacity.cpp"), dict(tu="c02d_capacity2.cpp")],
     e2=[dict(rule="R-SIMD"), dict(rule="R-AXISNORM.simd")],
     e3=[dict(group="C02")],
     rule=E1_RULE,
@@ -241,7 +241,7 @@ PROPS["C08"] = dict(
 
 PROPS["C05"] = dict(
     level="proof",
-    claim="Partial, small extents, every element value: (E1 c05_slice) for an axis of extent N = 1..3 (thorough: 4) EVERY combination of start and stop in {None, -N-2 .. N+2} with step in {absent, None, 1, 2, 3, -1, -2, -3} (tuple form with typed parts) gives view::slice exactly the length of Python's slice.indices rule and element k = source element start' + k*step, on arrays of constant shape and - extent 3 - on arrays whose shape is a run-time value; the same for the all-integer index-array forms {start,stop,step} / {start,stop} and for the run-time list handed to apply_slice (array of index arrays: length and elements; list of either-typed parts: lengths only), so the compile-time and run-time encodings agree with the one oracle and hence with each other. Since slice.indices clamps, |start|,|stop| > N behave like N+1, which is enumerated: for these extents the enumeration is exhaustive in start and stop. (E1 c05b_forms) integers drop their axis and negative ones count from the end, an ellipsis stands for the unnamed axes (alone, leading, trailing, between integers / ranges, standing for no axis), several sliced axes are independent, an empty range gives an empty axis, a slice of a slice composes. Extents above 4, |step| > 3 and heap-backed shapes are not decided. (c05c_lengths, index level, SYMBOLIC extent) for every extent n below 2^40: a[:] has n elements and a[::k] / a[::-k] have ceil(n/k) for k = 1, 2, 3.",
+    claim="Partial, small extents, every element value: (E1 c05_slice) for an axis of extent N = 1..3 (thorough: 4) EVERY combination of start and stop in {None, -N-2 .. N+2} with step in {absent, None, 1, 2, 3, -1, -2, -3} (tuple form with typed parts) gives view::slice exactly the length of Python's slice.indices rule and element k = source element start' + k*step, on arrays of constant shape and - extent 3 - on arrays whose shape is a run-time value; the same for the all-integer index-array forms {start,stop,step} / {start,stop} and for the run-time list handed to apply_slice (array of index arrays: length and elements; list of either-typed parts: lengths only), so the compile-time and run-time encodings agree with the one oracle and hence with each other. Since slice.indices clamps, |start|,|stop| > N behave like N+1, which is enumerated: for these extents the enumeration is exhaustive in start and stop. (E1 c05b_forms) integers drop their axis and negative ones count from the end, an ellipsis stands for the unnamed axes (alone, leading, trailing, between integers / ranges, standing for no axis), several sliced axes are independent, an empty range gives an empty axis, a slice of a slice composes. Extents above 4, |step| > 3 and heap-backed shapes are not decided. (c05c_lengths, index level, SYMBOLIC extent) for every extent n below 2^40: a[:] has n elements and a[::k] / a[::-k] have ceil(n/k) for k = 1, 2, 3. For the same symbolic extent and a symbolic result index i below that length, a[::k][i] reads position i*k and a[::-k][i] position n-1-i*k.",
     note=E1_NOTE + " The oracle is Python's documented slice.indices algorithm written as a constexpr function of four integers in the driver. Decided after the repair `fix: slice ranges follow Python's start/stop normalisation` (the unchanged upstream code deviated from Python for most negative / out-of-range / empty combinations, see DESIGN 8.8).",
     technique=E1_TECH + " (exhaustive enumeration of the slice parameters over small extents, element values symbolic)",
     e1=[dict(tu="c05c_lengths.cpp"), dict(tu="c05_slice.cpp", flags=["-DC05_N=1"]), dict(tu="c05_slice.cpp", flags=["-DC05_N=2"]), dict(tu="c05_slice.cpp", flags=["-DC05_N=3"]),
